@@ -53,5 +53,6 @@ Spec == Init /\ [][Next]_vars
 
 SetToSeqOk == TRUE
 CellsExact == stage = 2 => \A c \in DOMAIN X : X[c] = CellSem(GR, w, c[1] + 1, c[2] + 1)
+OwnAnswerPassesCykChecker == (stage = 2 /\ todo = <<>>) => \A c \in DOMAIN X : X[c] = CellSem(GR, w, c[1] + 1, c[2] + 1)
 VerdictExact == (stage = 2 /\ todo = <<>>) => (("S" \in X[<<0, Len(w) - 1>>]) <=> CfgAccepts(GR, w))
 =============================================================================
